@@ -270,8 +270,10 @@ def og_body(ctx, case):
 
 @st.composite
 def gctm_cases(draw):
-    N = draw(st.integers(6, 40))
-    L = draw(st.integers(2, 4))
+    # L up to 7: above 4 scipy's L-BFGS-B gives up (success == False) on about 3 % of the profiles, which is the only
+    # region where what the code does with a failed optimisation can be seen (seeded C18-8)
+    L = draw(st.integers(2, 7))
+    N = draw(st.integers(max(6, L + 2), 40))
     kind = draw(st.sampled_from(["regular", "irregular"]))
     seed = draw(st.integers(0, 2**32 - 1))
     rng = gen.np_rng(seed)
@@ -320,7 +322,32 @@ def gctm_body(ctx, case):
     obj = float(np.sum((mom(hl, cl) - m0) ** 2))
     obj_guess = float(np.sum((mom(gh, gc) - m0) ** 2))
     ctx.require(obj <= obj_guess * (1 + 1e-9) + 1e-18, "GCTM: moment objective %r worse than at its own starting guess %r" % (obj, obj_guess))
+    # Returning the starting guess untouched is "optimiser accuracy" only if the guess is already a stationary point of the
+    # bounded problem (L-BFGS-B's own stopping rule: projected gradient <= 1e-5).  The exact optimum is 0 (the L-point Gauss
+    # quadrature of the profile reproduces 2L moments), so a start with a large objective and a large projected gradient
+    # that comes back unchanged means no optimisation was delivered.
+    x0 = np.hstack([gh / hs, gc / cs])
+    xr = np.hstack([hl / hs, cl / cs])
+    if np.allclose(xr, x0, rtol=1e-12, atol=0.0):
+        ctx.classes["result_is_the_start"] += 1
+        k = np.arange(2 * L - 1)
+        hh, cc = x0[:L], x0[L:]
+        r = mom(gh, gc) - m0
+        g_c = 2 * (hh[None, :] ** k[:, None] * r[:, None]).sum(0)
+        g_h = 2 * (cc[None, :] * k[:, None] * hh[None, :] ** np.maximum(k[:, None] - 1, 0) * r[:, None]).sum(0)
+        g = np.hstack([g_h, g_c])
+        pg = np.where((x0 > 0) | (g < 0), g, 0.0)
+        ctx.require(not (obj_guess > 1e-6 and float(np.max(np.abs(pg))) > 1e-3),
+                    "GCTM returned its equivalent-layers starting guess unchanged although the guess is not stationary (objective %.3g, projected gradient %.3g; the exact optimum is 0), L=%d N=%d" % (obj_guess, float(np.max(np.abs(pg))), L, len(h)))
+    else:
+        ctx.classes["result_moved_from_the_start"] += 1
     rel = float(np.max(np.abs(mom(hl, cl) - m0) / m0))
+    if L >= 5:
+        # the calibrated accuracy bounds below are for L <= 4 (12th powers of the height at L = 7 make the relative error
+        # of the highest moments meaningless as a per-case figure); for L >= 5 the laws are: not worse than the start,
+        # and not the start itself
+        ctx.residual("gctm_relative_moment_error_L5to7 (reported, not bounded)", rel, 1e30)
+        return
     # "to optimiser accuracy" has a heavy tail when L is close to N (L-BFGS-B stops on a flat objective: 6 % was seen once in
     # 8000 cases, median 3e-6).  Per case only a gross-error bound is asserted; the accuracy claim is decided over a whole
     # sample by the law gctm_sample (quantiles), which an off-by-one in the moment count or a wrong scaling shifts as a whole.
@@ -367,6 +394,6 @@ LAWS = [
     given_law("equivalent_layers", el_cases(), el_body, {"quick": 600, "thorough": 10000}, shards={"quick": 3, "thorough": 16}),
     Law("equivalent_layers_enum", el_enum_run, replay=lambda ctx, case: check_equivalent(ctx, case["h"], case["p"], case["L"], None), shards={"quick": 12, "thorough": 16}),
     given_law("optimal_grouping", og_cases(22), og_body, {"quick": 150, "thorough": 1000}, shards={"quick": 3, "thorough": 16}),
-    given_law("gctm", gctm_cases(), gctm_body, {"quick": 60, "thorough": 500}, shards={"quick": 3, "thorough": 16}),
+    given_law("gctm", gctm_cases(), gctm_body, {"quick": 240, "thorough": 2000}, shards={"quick": 3, "thorough": 16}),
     plain_law("gctm_sample", gctm_sample_cases, gctm_sample_body, shards={"quick": 2, "thorough": 16}),
 ]
